@@ -217,8 +217,8 @@ def run_case(case):
             ck.fail("create:real-pool:hang", str(e))
             return ck.results()
         except Exception as e:  # noqa
-            if case["mode"] == "num" and ("contains no data" in str(e) or "writer process failed" in str(e)):
-                return Result.discard("kmeans-empty-patch")
+            if case["mode"] == "num" and ("contains no data" in str(e) or "writer process failed" in str(e) or "infs or NaNs" in str(e)):
+                return Result.discard("kmeans-empty-patch")  # k-means produced an empty / NaN centre: degenerate probe
             ck.fail(f"create|{exc_sig(e)}", f"{type(e).__name__}: {e}")
             return ck.results()
         stored = sources.stored_records(cat_a)
@@ -285,7 +285,7 @@ def run_case(case):
                 same = sorted(sb) == sorted(stored) and all(sources.multiset(sb[k]) == sources.multiset(stored[k]) for k in stored)
             ck.expect(same, "variant:differs", f"a={case['a']} b={case['b']}")
         except Exception as e:  # noqa
-            if not (case["mode"] == "num" and ("contains no data" in str(e) or "writer process failed" in str(e))):
+            if not (case["mode"] == "num" and ("contains no data" in str(e) or "writer process failed" in str(e) or "infs or NaNs" in str(e))):
                 ck.fail(f"create-variant|{exc_sig(e)}", f"{type(e).__name__}: {e}")
     return ck.results()
 
